@@ -11,8 +11,8 @@ pub const MAX_OPS: usize = 200;
 pub fn all_cfgs(world: &dyn World) -> Vec<Cfg> {
     let mut v: Vec<Cfg> = Vec::new();
     for t in [Tier::Quick, Tier::Thorough] {
-        v.extend(world.configs(t));
-        v.extend(world.enum_configs(t).into_iter().map(|(c, _)| c));
+        v.extend(all_configs(world, t));
+        v.extend(all_enum_configs(world, t).into_iter().map(|(c, _)| c));
     }
     v.sort();
     v.dedup();
@@ -71,7 +71,7 @@ pub fn fuzz_one(world_name: &str, data: &[u8]) {
             f.violation.prop,
             f.violation.kind,
             f.world,
-            world.cfg_desc(&f.cfg),
+            world.describe(&f.cfg),
             f.violation.detail,
             f.ops.iter().map(|o| op_to_string(&specs, o)).collect::<Vec<_>>().join(" ")
         );
